@@ -2567,15 +2567,25 @@ impl PublicKey {
                         let nj = Scalar::from_w64le(0, 0, 0,
                             (j as u64) << (n - 192));
                         let s = if zUi.equals(zVj) != 0 {
-                            s0 + ni + nj
+                            Some(s0 + ni + nj)
                         } else {
                             debug_assert!(zUi.equals(-zVj) != 0);
-                            s0 + ni - nj
+                            if i == 0 && j != 0 {
+                                // s0 - j*2^n is negative: the matching
+                                // value wraps around modulo n and is
+                                // not a completion of the received bits.
+                                None
+                            } else {
+                                Some(s0 + ni - nj)
+                            }
                         };
-                        // sig2[] already contains r, we just have to encode
-                        // the complete s in it.
-                        sig2[32..64].copy_from_slice(&bswap32(&s.encode()));
-                        return Some(sig2);
+                        if let Some(s) = s {
+                            // sig2[] already contains r, we just have to
+                            // encode the complete s in it.
+                            sig2[32..64].copy_from_slice(
+                                &bswap32(&s.encode()));
+                            return Some(sig2);
+                        }
                     }
 
                     if i1 == 0 {
